@@ -162,6 +162,13 @@ func (d *Decoder) readDate(flag int32) (time.Time, error) {
 }
 
 func (d *Decoder) readStruct() (interface{}, error) {
+	// a struct held in a field of another struct is one level of nesting too
+	if d.depth >= _maxDepth {
+		return nil, newCodecError("readStruct", "values nested deeper than %d", _maxDepth)
+	}
+	d.depth++
+	defer func() { d.depth-- }()
+
 	tag, err := d.readTag()
 	if err != nil {
 		return nil, newCodecError("readTag", "unexpected end of input", err)
